@@ -21,8 +21,9 @@ def self_list_growth(fi):
                 and not (isinstance(n.value, ast.Constant) and isinstance(n.value.value, (int, float))):
             out.setdefault(n.target.attr, []).append(n)
         elif isinstance(n, ast.Assign) and len(n.targets) == 1 and is_self_attr(n.targets[0]) \
-                and isinstance(n.value, ast.BinOp) and is_self_attr(n.value.left, n.targets[0].attr):
-            out.setdefault(n.targets[0].attr, []).append(n)
+                and isinstance(n.value, ast.BinOp) and is_self_attr(n.value.left, n.targets[0].attr) \
+                and not (isinstance(n.value.right, ast.Constant) and isinstance(n.value.right.value, (int, float))):
+            out.setdefault(n.targets[0].attr, []).append(n)      # (x = x + 1 is a counter, not a list)
     return out
 
 
